@@ -6,16 +6,29 @@
 (* cmd | getline, print | cmd, close), every process with a command string    *)
 (* of its own; starting a command takes two steps, and the interleavings      *)
 (* between them are where the SharedShellArgs slip shows.                     *)
+(* Extra = "formats": conversions of a non-integer number, every process with *)
+(* number formats of its own; refuted under SharedShellArgs (the determined    *)
+(* format is one process-level location).                                     *)
+(* Extra = "rules": the menu of range rules (executions that end inside a range  *)
+(* included); with MaxRuns = 2 the SharedCache slip -- the in-range flags are  *)
+(* a table of the program -- is refuted (Equivalent, NoSharedWrite).          *)
 EXTENDS SharedProgram
 
-CONSTANTS MaxLen, Cmds
+CONSTANTS MaxLen, Cmds, Extra
 
 \* regular expression 3 (/1|10/) is used both as the compiled literal ("match") and, with the same source, on the
 \* run-time path ("rlen"), where leftmost-longest matters
 CmdMenu == { [op |-> "set", g |-> 1, k |-> 3], [op |-> "print", g |-> 1, k |-> 0],
              [op |-> "system", g |-> 1, k |-> 0], [op |-> "cmdgetline", g |-> 1, k |-> 0],
              [op |-> "printcmd", g |-> 1, k |-> 0], [op |-> "close", g |-> 1, k |-> 0] }
-Menu == IF Cmds THEN CmdMenu ELSE
+\* Extra = "rules": programs with range rules  NR == lo, NR == hi  over the three records of the input -- closing before
+\* the end, at the record that opens them, or never (hi = 9: the execution ends inside the range)
+RuleMenu == { [op |-> "range", g |-> 1, k |-> 2], [op |-> "range", g |-> 2, k |-> 9], [op |-> "range", g |-> 3, k |-> 3],
+              [op |-> "set", g |-> 1, k |-> 3], [op |-> "print", g |-> 1, k |-> 0] }
+\* Extra = "formats": conversions of a non-integer number under the formats of the execution (OFMT, CONVFMT)
+FmtMenu == { [op |-> "set", g |-> 1, k |-> 3], [op |-> "add", g |-> 1, k |-> 2], [op |-> "oprint", g |-> 1, k |-> 0],
+             [op |-> "conv", g |-> 1, k |-> 0], [op |-> "print", g |-> 1, k |-> 0] }
+Menu == IF Extra = "rules" THEN RuleMenu ELSE IF Extra = "formats" THEN FmtMenu ELSE IF Cmds THEN CmdMenu ELSE
         { [op |-> "set", g |-> 1, k |-> 3], [op |-> "set", g |-> 2, k |-> 4],
           [op |-> "add", g |-> 1, k |-> 2], [op |-> "add", g |-> 2, k |-> 3],
           [op |-> "match", g |-> 1, k |-> 1], [op |-> "match", g |-> 2, k |-> 3],
@@ -48,7 +61,7 @@ New(i) ==
   /\ spare' = IF ReuseInterp THEN NoInterp ELSE spare
   /\ acc' = [p |-> i, reads |-> {PLoc("sizes", 0)} \cup (IF ReuseInterp /\ spare.status = "done" THEN {<<"pool", 0>>} ELSE {}),
              writes |-> {ILoc(i, "g", 1), ILoc(i, "g", 2), ILoc(i, "pc", 0), ILoc(i, "out", 0), ILoc(i, "rc", 0), ILoc(i, "rng", 0),
-                         ILoc(i, "cmd", 0), ILoc(i, "argv", 0), ILoc(i, "ph", 0), ILoc(i, "rd", 0)}]
+                         ILoc(i, "cmd", 0), ILoc(i, "argv", 0), ILoc(i, "ph", 0), ILoc(i, "rd", 0), ILoc(i, "open", 0), ILoc(i, "fmt", 0)}]
   /\ UNCHANGED <<body, program, shell>>
 \* one VM instruction of the current execution of process i (one of the two steps of one that starts a command)
 Step(i) ==
